@@ -220,10 +220,13 @@ pub fn plan(id: &str) -> Option<Plan> {
         },
         "C18" => Plan {
             id: "C18",
-            rule: "scenario = health-check wrapper with its own background task on the paused clock: 1-5 resources, thresholds 1-4 (or the defaults), scripted result per (resource, check) over {healthy, degraded, unhealthy, unknown, slower than the timeout} in moody runs, 50-300 check intervals, strategies first-available / round-robin / prefer-healthy / two custom selectors; after every interval get_status of every resource is compared with a reference hysteresis machine and n get_usable + n get_healthy calls are judged for eligibility, None-iff-empty and round-robin evenness; non-trivial iff >=2 status flips and >=1 timed-out check; distinct = (published status sequence, config) signature",
+            rule: "scenario = health-check wrapper with its own background task on the paused clock: 1-5 resources, thresholds 1-4 (or the defaults), scripted result per (resource, check) over {healthy, degraded, unhealthy, unknown, slower than the timeout} in moody runs, 50-300 check intervals, strategies first-available / round-robin / prefer-healthy / two custom selectors; after every interval get_status of every resource is compared with a reference hysteresis machine and n get_usable + n get_healthy calls are judged for eligibility, None-iff-empty and round-robin evenness; non-trivial iff >=2 status flips and >=1 timed-out check; distinct = (published status sequence, config) signature. overrun: timeout 12 ms > interval 5 ms, check latencies 0-15 ms; status sampled every ms at x.5 ms and compared, whenever no check of the resource is in progress, with the thresholds machine after the number of checks finished so far",
             assumptions: BASE_ASSUMPTIONS.to_vec(),
             floor: 50,
-            engines: vec![Engine { name: "sim", salt: 1, quick: 600, thorough: 60_000, serial: false, run: Box::new(|s, t| c18::scenario(s, t)) }],
+            engines: vec![
+                Engine { name: "sim", salt: 1, quick: 600, thorough: 60_000, serial: false, run: Box::new(|s, t| c18::scenario(s, t)) },
+                Engine { name: "overrun", salt: 2, quick: 400, thorough: 40_000, serial: false, run: Box::new(|s, t| c18::scenario_overrun(s, t)) },
+            ],
             extra: None,
         },
         "C19" => Plan {
